@@ -11,7 +11,7 @@ from .flow import Engine
 
 # fx03 fx03f fx06 fx07 fx08 fx12 fx33 — which proposed repairs the code under test contains
 # (all 0 = /repo as it is today; the lead flips a bit together with the corresponding fix commit)
-FIXES = os.environ.get("VERIF_MPMCB_FIXES", "0000000")
+FIXES = os.environ.get("VERIF_MPMCB_FIXES", "1111111")
 
 AR = {"ts": 2, "tr": 2, "sd": 2, "rv": 2, "rt": 2, "cl": 3, "cs": 2, "dr": 2, "cv": 3, "ob": 2,
       "ms": 3, "mr": 3, "po": 3, "df": 2, "tsb": 3, "tsm": 3, "trb": 3, "trm": 3}
